@@ -19,7 +19,7 @@
    name and updating the object in place are different things.
 
    The model is parametrised by six booleans [Fixes]; all-false is the tree before the four
-   "fix:" commits 204c2e5, d567ae1, f436ae3, 2d3e878 (decorators capturing the lists at
+   "fix:" commits 204c2e5, d567ae1, f436ae3, 2d3e878, a77d816 (decorators capturing the lists at
    import and writing back without a finally, install_profiler(None), two timers).
    [current] is the tree as it is now.  Keeping the unrepaired behaviours in the model lets
    Props/C19.v also state that each repair is necessary. *)
@@ -41,9 +41,10 @@ Record Fixes := mkFixes {
 (* ===> the behaviour of the current tree (edit here if kernprof.main changes again) <===
    repaired: lists looked up at call time + names put back (f436ae3), finally (d567ae1),
    decorator state handed back (2d3e878), one timer (204c2e5).
-   not changed: sys.argv is still rebound by main (harmless now); builtins.profile stays;
-   auto-profiling's registrations leave the LineProfiler enabled (fx_autoprof, a defect). *)
-Definition current : Fixes := mkFixes false true true true true false false.
+   decorator state handed back (2d3e878), one timer (204c2e5), auto-profiling's
+   enable_by_count() balanced in main's finally (a77d816).
+   not changed: sys.argv is still rebound by main (harmless now); builtins.profile stays. *)
+Definition current : Fixes := mkFixes false true true true true false true.
 (* the tree before the repairs *)
 Definition unrepaired : Fixes := mkFixes false false false false false false false.
 
@@ -233,8 +234,9 @@ Definition main_body (cfg : Fixes) (o : Opts) (p : Prog) (s : St) : result * St 
   let s := set_tracing (if is_some found_tracing then found_tracing else Some pr) s in
   let s := upd_path (fun c => if p_touch_path p && body_runs o p found_tracing then append_cur "/prog-added" c else c) s in
   let s := upd_argv (fun c => if p_touch_argv p && body_runs o p found_tracing then append_cur "prog-added" c else c) s in
-  (* ... except the registrations of auto-profiling: enable_by_count() once per registered import,
-     never disabled (line_profiler/autoprofile/line_profiler_utils.py:25) *)
+  (* ... except the registrations of auto-profiling: enable_by_count() once per registered import
+     (line_profiler/autoprofile/line_profiler_utils.py:25), never disabled before a77d816; now
+     main's finally does `while prof.enable_count > 0: prof.disable_by_count()` *)
   let s := set_tracing (if registers o p && negb (fx_autoprof cfg) && negb (is_some found_tracing)
                         then Some pr else found_tracing) s in
   (* 531-532: except (KeyboardInterrupt, SystemExit): pass     533: finally: *)
